@@ -33,6 +33,7 @@ from spyne.util.six.moves.collections_abc import Iterable as AbcIterable
 
 from spyne.error import ValidationError
 from spyne.error import ResourceNotFoundError
+from spyne import BODY_STYLE_BARE
 
 from spyne.model import ByteArray, File, Fault, ComplexModelBase, Array, Any, \
     AnyDict, Uuid, Unicode
@@ -103,7 +104,21 @@ class HierDictDocument(DictDocument):
                 else:
                     doc = doc.get(class_name, None)
 
-            result_message = self._doc_to_object(ctx, body_class, doc,
+            if message is self.REQUEST and \
+                               ctx.descriptor.body_style is BODY_STYLE_BARE:
+                # in bare mode the message is the argument itself, which may
+                # as well be null or of a simple type.
+                if not self.ignore_wrappers and isinstance(doc, dict) and \
+                        len(doc) == 1 and not (
+                            issubclass(body_class, ComplexModelBase) and
+                                           not issubclass(body_class, Array)):
+                    doc, = doc.values()
+
+                result_message = self._from_dict_value(ctx, class_name,
+                                               body_class, doc, self.validator)
+
+            else:
+                result_message = self._doc_to_object(ctx, body_class, doc,
                                                                  self.validator)
             ctx.in_object = result_message
 
